@@ -1,3 +1,140 @@
-(* C04 - theorems only.  See DESIGN.md section 6, C04. *)
-From Coq Require Import Reals List Lra.
-From Sdfx Require Import Num.Ops Num.RInst Geo.Vec Geo.Box Sdf.Poly.
+(* C04 - theorems only.  See DESIGN.md section 6, C04.
+   Model: Sdf/Poly.v (follows sdf/mesh2.go, sdf/box2.go).  All statements are about the ROps
+   (real number) instance.  NOT proved (and not claimed): the topological fact that a non-zero
+   crossing number means "enclosed" for a simple polygon (Jordan curve theorem); the crossing
+   number written with exact cross products is taken as the specification of inside. *)
+From Coq Require Import Reals List ZArith Permutation Lra.
+From Sdfx Require Import Num.Ops Num.RInst Geo.Vec Geo.Box Geo.BoxR Sdf.Poly Sdf.PolyR Sdf.PolyTreeR.
+Import ListNotations.
+Open Scope R_scope.
+
+(* (1) lineInfo.winding (normalised direction vector, square root) is the specification increment
+   written with the cross product, for every segment and every point, vertex levels included ... *)
+Theorem C04_winding_is_spec : forall (l : Seg ROps) (p : V2 ROps),
+  winding (new_line_info l) p = cross_spec l p.
+Proof. exact winding_eq_spec. Qed.
+Print Assumptions C04_winding_is_spec.
+
+(* ... hence, summed over the edges (of a closed chain or any list), the brute-force winding number
+   is the specification crossing number at every point *)
+Theorem C04_halfopen_crossing_spec : forall (ls : list (Seg ROps)) (p : V2 ROps),
+  snd (slow_loop (convert_lines ls) p) = wn_spec ls p.
+Proof. exact halfopen_crossing_spec. Qed.
+Print Assumptions C04_halfopen_crossing_spec.
+
+(* on a closed chain the half-open rule gives each vertex level to exactly one of the two edges
+   meeting there: the edges going up through a level and those going down through it balance *)
+Theorem C04_closed_chain_level_balance : forall (vs : list (V2 ROps)) (y : R),
+  sumZ (map (updown y) (closed_edges vs)) = 0%Z.
+Proof. exact closed_chain_level_balance. Qed.
+Print Assumptions C04_closed_chain_level_balance.
+
+(* (2) minDistance2 is the squared Euclidean distance to the segment: attained at a parameter in
+   [0,1] and a lower bound for every parameter in [0,1] *)
+Theorem C04_segdist2_exact : forall (l : Seg ROps) (p : V2 ROps), nondeg l ->
+  (exists t, 0 <= t <= 1 /\ dist2_2 p (pt (fst l) (snd l) t) = min_distance2 (new_line_info l) p) /\
+  (forall t, 0 <= t <= 1 -> min_distance2 (new_line_info l) p <= dist2_2 p (pt (fst l) (snd l) t)).
+Proof. exact segdist2_exact. Qed.
+Print Assumptions C04_segdist2_exact.
+
+(* the sqrt-free specification run at exact rationals against the implementation is the same value *)
+Theorem C04_segdist2_spec : forall (l : Seg ROps) (p : V2 ROps), nondeg l ->
+  min_distance2 (new_line_info l) p = segdist2_spec l p.
+Proof. exact mindist2_eq_spec. Qed.
+Print Assumptions C04_segdist2_spec.
+
+(* (3) replacing a segment by two pieces meeting at a point C strictly inside it changes neither the
+   summed winding (half-open rule at the cut) nor the minimum distance *)
+Theorem C04_split_preserves : forall (A B C p : V2 ROps) (s : R), between A B C s ->
+  (winding (new_line_info (A, C)) p + winding (new_line_info (C, B)) p = winding (new_line_info (A, B)) p)%Z /\
+  (nondeg (A, B) ->
+   Rmin (min_distance2 (new_line_info (A, C)) p) (min_distance2 (new_line_info (C, B)) p)
+   = min_distance2 (new_line_info (A, B)) p).
+Proof. exact split_preserves. Qed.
+Print Assumptions C04_split_preserves.
+
+(* (4) minBoxDist2 is the squared distance to the node square (clamp specification of Geo/BoxR.v) ... *)
+Theorem C04_min_box_dist2_exact : forall (c : V2 ROps) (hs : R) (p : V2 ROps), 0 <= hs ->
+  min_box_dist2 c hs p = fst (spec2_minmax (sq_box c hs) p).
+Proof. exact min_box_dist2_spec. Qed.
+Print Assumptions C04_min_box_dist2_exact.
+
+(* ... pieces lie in their node squares, so the pruned search (skip a node when its box distance is
+   >= the best so far; children in any of the 8 search orders) returns the least of dd and the
+   squared distances of ALL pieces of the tree *)
+Theorem C04_prune_sound : forall (t : qt ROps (Seg ROps)) (p : V2 ROps),
+  box_ok t -> Forall nondeg (pieces t) -> forall dd, dd <= omaxf ROps ->
+  is_min (qt_mindist2 (qt_map new_line_info t) p dd) dd (map (d2f p) (pieces t)).
+Proof. exact prune_sound. Qed.
+Print Assumptions C04_prune_sound.
+
+Theorem C04_search_order_permutes : forall (c p : V2 ROps),
+  let '(i0, i1, i2, i3) := search_order c p in Permutation [i0; i1; i2; i3] [0; 1; 2; 3]%nat.
+Proof. exact search_order_perm. Qed.
+Print Assumptions C04_search_order_permutes.
+
+(* (5) the children skipped by qtNode.winding hold only pieces the +x ray from p cannot cross: the
+   walk returns the sum over ALL pieces of the tree *)
+Theorem C04_ray_children_sound : forall (t : qt ROps (Seg ROps)) (p : V2 ROps), ray_ok t ->
+  forall wn, qt_winding (qt_map new_line_info t) p wn = (wn + Wl p (pieces t))%Z.
+Proof. exact ray_children_sound. Qed.
+Print Assumptions C04_ray_children_sound.
+
+(* (6) fast = slow at every point of the plane, for every tree and segment list that pass the
+   clipping certificate ... *)
+Theorem C04_fast_eq_slow : forall (tree : qt ROps (Seg ROps)) (segs : list (Seg ROps)),
+  well_clipped tree segs -> forall p,
+  eval_fast (qt_map new_line_info tree) p = eval_slow (convert_lines segs) p.
+Proof. exact fast_eq_slow. Qed.
+Print Assumptions C04_fast_eq_slow.
+
+(* ... the inside/outside half needs only the winding part of the certificate (no box containment,
+   degenerate segments allowed) ... *)
+Theorem C04_fast_winding_eq_slow : forall (tree : qt ROps (Seg ROps)) (segs : list (Seg ROps)),
+  winding_clipped tree segs -> forall p,
+  qt_winding (qt_map new_line_info tree) p 0%Z = snd (slow_loop (convert_lines segs) p).
+Proof. exact fast_winding_eq_slow. Qed.
+Print Assumptions C04_fast_winding_eq_slow.
+
+(* ... and the certificate is decidable: the boolean checker (run at exact rationals on the dumped
+   quadtree of every tested polygon) is sound at tolerance 0 *)
+Theorem C04_well_clipped_check_sound : forall tree segs chains,
+  well_clipped_check 0 tree segs chains = true -> well_clipped tree segs.
+Proof. exact well_clipped_check_sound. Qed.
+Print Assumptions C04_well_clipped_check_sound.
+Theorem C04_winding_clipped_check_sound : forall tree segs chains,
+  winding_clipped_check 0 tree segs chains = true -> winding_clipped tree segs.
+Proof. exact winding_clipped_check_sound. Qed.
+Print Assumptions C04_winding_clipped_check_sound.
+
+(* non-vacuity: the diagonal of a square cut at the centre of a one-level quadtree *)
+Definition ex_A : V2 ROps := mkV2 (-1) (-1).
+Definition ex_B : V2 ROps := mkV2 1 1.
+Definition ex_C : V2 ROps := mkV2 0 0.
+Definition ex_box : Box2 ROps := mkBox2 (mkV2 (-2) (-2)) (mkV2 2 2).
+Definition ex_tree : qt ROps (Seg ROps) :=
+  QNode ex_box ex_C 2
+    (QLeaf (mkBox2 (mkV2 (-2) (-2)) ex_C) (mkV2 (-1) (-1)) 1 [(ex_A, ex_C)])
+    QNil QNil
+    (QLeaf (mkBox2 ex_C (mkV2 2 2)) (mkV2 1 1) 1 [(ex_C, ex_B)]).
+Lemma ex_abs_le (x h : R) : - h <= x <= h -> Rabs x <= h.
+Proof. intros H. unfold Rabs. destruct (Rcase_abs x); lra. Qed.
+Example C04_hyp_satisfiable : well_clipped ex_tree [(ex_A, ex_B)] /\ between ex_A ex_B ex_C (1 / 2).
+Proof.
+  split.
+  - exists [[(ex_A, ex_C); (ex_C, ex_B)]]. split; [|split; [|split; [|split]]].
+    + constructor; [|constructor]. unfold is_chain; cbn [fst snd].
+      apply (chain_cons _ _ ex_A ex_C 0 (1 / 2)).
+      * unfold pt, ex_A, ex_B; cbn [vx vy]. f_equal; lra.
+      * unfold pt, ex_A, ex_B, ex_C; cbn [vx vy]. f_equal; lra.
+      * lra.
+      * apply chain_last; [unfold pt, ex_A, ex_B, ex_C; cbn [vx vy]; f_equal; lra | lra].
+    + unfold ex_tree. cbn [pieces concat app]. apply Permutation_refl.
+    + unfold ex_tree. cbn [ray_ok pieces]. unfold seg_all, ex_A, ex_B, ex_C.
+      repeat split; try exact I; repeat (apply Forall_cons || apply Forall_nil); cbn [fst snd vx vy]; lra.
+    + unfold ex_tree. cbn [box_ok pieces app]. unfold seg_all, in_sq, ex_A, ex_B, ex_C.
+      repeat split; try exact I; try lra; repeat (apply Forall_cons || apply Forall_nil); cbn [fst snd vx vy];
+        repeat split; apply ex_abs_le; lra.
+    + constructor; [|constructor]. unfold nondeg, ex_A, ex_B; cbn [fst snd vx vy]. lra.
+  - unfold between, ex_A, ex_B, ex_C; cbn [vx vy]. lra.
+Qed.
